@@ -520,7 +520,7 @@ OPTION_SETS = {
     "reuse_model": {"reuse_model": True},
     "collapse_root_models": {"collapse_root_models": True},
 }
-# (combinations of options are C14's topic: reuse_model + collapse_root_models leaves a dangling base class, C14's D43)
+# (combinations of options are C14's topic: reuse_model + collapse_root_models used to leave a dangling base class, C14's former D43, repaired)
 OPTION_TARGETS = [("v2", "contype", "jsonschema", "reuse_model"), ("v1", "contype", "jsonschema", "reuse_model"), ("v2", "field", "jsonschema", "collapse_root_models"), ("v1", "field", "jsonschema", "collapse_root_models")]
 
 
